@@ -136,3 +136,68 @@ M("c17-separate-storages", "C17", DSP,
   "        tmp_extended_gff_printer = GFFPrinter(sample.out_dir, sample.prefix, exon_id_storage,\n                                              gtf_suffix",
   "        tmp_extended_gff_printer = GFFPrinter(sample.out_dir, sample.prefix, FeatureIdStorage(SimpleIDDistributor()),\n                                              gtf_suffix",
   rule="I4", note="extended annotation printer uses its own exon id storage")
+
+# ---------------------------------------------------------------- C18
+AIO = "src/assignment_io.py"
+M("c18-revert-memo-key", "C18", AIO, "            site_key = (intron, strand)\n", "            site_key = intron\n", rule="K1",
+  note="revert: memo keyed by intron only")
+M("c18-revert-upper", "C18", AIO, "left_site = gene_info.reference_region[intron_left_pos:intron_left_pos+2].upper()",
+  "left_site = gene_info.reference_region[intron_left_pos:intron_left_pos+2]", rule="K2", note="revert: no upper-casing on one site")
+M("c18-refseq-without-reset", "C18", "src/gene_info.py",
+  "            str(chr_record[self.all_read_region_start - 1:self.all_read_region_end])\n        self.canonical_sites = {}\n",
+  "            str(chr_record[self.all_read_region_start - 1:self.all_read_region_end])\n", rule="K1",
+  note="reference window moved without clearing the canonical memo")
+M("c18-strand-memo-narrow", "C18", "src/gene_info.py",
+  "                strand = get_intron_strand(intron, self.chr_record)\n                self.strand_dict[intron] = strand",
+  "                strand = get_intron_strand(intron, self.chr_record) if len(introns) > 1 else '.'\n                self.strand_dict[intron] = strand",
+  rule="K1", note="strand memo value depends on the size of the query list, not only on the key")
+M("c18-silent-setdefault-style", "C18", AIO, "            if not gene_info.canonical_sites[site_key]:\n                return False",
+  "            is_canonical = gene_info.canonical_sites[site_key]\n            if not is_canonical:\n                return False",
+  expect="silent", note="read-back through a local")
+M("c18-silent-upper-at-compare", "C18", AIO, None, None, expect="silent", note="normalisation moved to a helper local",
+  edits=[(AIO, "left_site = gene_info.reference_region[intron_left_pos:intron_left_pos+2].upper()",
+          "left_raw = gene_info.reference_region[intron_left_pos:intron_left_pos+2]\n                left_site = left_raw.upper()")])
+
+# ---------------------------------------------------------------- C09
+RGM = "src/read_groups.py"
+LRC = "src/long_read_counter.py"
+M("c09-revert-none-group", "C09", RGM,
+  "            self.read_groups.add(self.default_group_id)\n            return self.default_group_id\n\n        self.read_groups.add(values[-1])",
+  "            return\n\n        self.read_groups.add(values[-1])", rule="P1", note="revert: None group for reads without delimiter")
+M("c09-revert-enumerate", "C09", LRC, "                for i, g in enumerate(self.ordered_groups):", "                for i, g in enumerate(read_groups):",
+  rule="P2", note="revert: index table numbered in set order")
+M("c09-unregistered-group", "C09", RGM,
+  "        if alignment.query_name not in self.read_map:\n            self.read_groups.add(self.default_group_id)\n            return self.default_group_id",
+  "        if alignment.query_name not in self.read_map:\n            return self.default_group_id", rule="P1",
+  note="table grouper returns NA without registering it (KeyError if no other read is NA)")
+M("c09-ordered-other-key", "C09", LRC, "            self.ordered_groups = sorted(read_groups)\n", "            self.ordered_groups = sorted(read_groups, key=len)\n",
+  expect="silent", note="both tables built from the same (differently keyed) sequence: still consistent")
+M("c09-two-sequences", "C09", LRC, None, None, rule="P2", note="index from sorted(), names from reversed sort",
+  edits=[(LRC, "                for i, g in enumerate(self.ordered_groups):", "                for i, g in enumerate(sorted(read_groups, reverse=True)):")])
+M("c09-count-under-default", "C09", LRC, "                    self.feature_counter[feature_id].inc(group_id, count_value)\n                    self.all_features.add(feature_id)\n\n        elif assignment_type.is_unique():",
+  "                    self.feature_counter[feature_id].inc(0, count_value)\n                    self.all_features.add(feature_id)\n\n        elif assignment_type.is_unique():",
+  rule="P3", note="inconsistent reads counted under group 0 whatever their group")
+M("c09-silent-tag-local", "C09", RGM, "        self.read_groups.add(tag_value)\n        return tag_value",
+  "        group = tag_value\n        self.read_groups.add(group)\n        return group", expect="silent", note="local alias for the group")
+
+# ---------------------------------------------------------------- C20
+GTF = "src/gtf2db.py"
+RM = "src/read_mapper.py"
+M("c20-inplace-write", "C20", RM, "    dump_json_cache(args.bed_config_path, converted_beds)",
+  "    with open(args.bed_config_path, 'w') as f_out:\n        json.dump(converted_beds, f_out)", rule="A1", note="revert one writer to in-place")
+M("c20-raw-read", "C20", RM, "    converted_beds = load_json_cache(args.bed_config_path)\n\n    bed_filename",
+  "    with open(args.bed_config_path, 'r') as f_in:\n        converted_beds = json.load(f_in)\n\n    bed_filename", rule="A2",
+  note="revert one reader to bare json.load")
+M("c20-helper-not-atomic", "C20", GTF, "    os.replace(tmp_path, config_path)\n", "    shutil_copy = open(config_path, 'w'); shutil_copy.write(open(tmp_path).read()); shutil_copy.close()\n",
+  rule="A1", note="helper no longer publishes atomically: every caller is affected")
+M("c20-helper-not-tolerant", "C20", GTF, "    except (OSError, ValueError):\n        return {}\n", "    except OSError:\n        return {}\n", rule="A2",
+  note="helper no longer tolerates undecodable content")
+M("c20-check-then-act", "C20", "isoquant.py", "    args.alignment_config_path = os.path.join(config_dir, 'alignment_config.json')\n",
+  "    args.alignment_config_path = os.path.join(config_dir, 'alignment_config.json')\n    if not os.path.exists(args.db_config_path):\n        with open(args.db_config_path, 'w') as f_out:\n            json.dump({}, f_out)\n",
+  rule="A3", note="check-then-act creation reintroduced")
+M("c20-new-shared-file", "C20", "isoquant.py", "    args.alignment_config_path = os.path.join(config_dir, 'alignment_config.json')\n",
+  "    args.alignment_config_path = os.path.join(config_dir, 'alignment_config.json')\n    args.stats_config_path = os.path.join(config_dir, 'stats.json')\n    open(args.stats_config_path, 'a').close()\n",
+  rule="A1", note="a new shared file written in place")
+M("c20-silent-rename-helper-local", "C20", GTF, "    tmp_path = \"%s.%d.tmp\" % (config_path, os.getpid())\n    with open(tmp_path, 'w') as f_out:\n        json.dump(cache, f_out)\n    os.replace(tmp_path, config_path)",
+  "    scratch = \"%s.%d.tmp\" % (config_path, os.getpid())\n    with open(scratch, 'w') as handle:\n        json.dump(cache, handle)\n    os.replace(scratch, config_path)",
+  expect="silent", note="rename helper locals")
